@@ -1,6 +1,8 @@
 package conc
 
 import (
+	"os"
+
 	"github.com/glebziz/fs_db/verifrt/vrt"
 )
 
@@ -9,6 +11,8 @@ type RaceReport struct {
 	Sig     string   `json:"sig"`     // unordered pair of the top fs_db frames of the two accesses
 	Frames  []string `json:"frames"`  // a few frames of each stack
 	Choices []int    `json:"choices"` // schedule of the execution in which it was reported
+	Scenario string  `json:"scenario"`
+	Params  string   `json:"params"`
 	Count   int64    `json:"count"`
 }
 
@@ -32,14 +36,22 @@ func mergeRaces(a, b []RaceReport) []RaceReport {
 var raceLog *raceLogT
 
 func setupRaceLog() {
-	if vrt.RaceEnabled {
+	if vrt.RaceEnabled && raceLog == nil && os.Getenv("VRT_RAW_RACE") == "" {
 		raceLog = openRaceLog()
 	}
 }
+
+// ParentRaceSetup lets the parent process of a race-detector run capture the reports of the
+// executions it performs itself (root and frontier executions).
+func ParentRaceSetup() { setupRaceLog() }
 
 func collectRaces(sc *Scenario, r *vrt.Result) []RaceReport {
 	if raceLog == nil {
 		return nil
 	}
-	return raceLog.collect(r.Choices)
+	rs := raceLog.collect(r.Choices)
+	for i := range rs {
+		rs[i].Scenario, rs[i].Params = sc.base, sc.params
+	}
+	return rs
 }
